@@ -32,7 +32,8 @@ ASSUMPTIONS = [
 
 @st.composite
 def _case(draw, n_max):
-    mt = draw(gen.st_mtree(n_min=0, n_max=n_max, outliers=True, max_outliers=3))
+    n = draw(st.sampled_from([5, 4, 6, 3, n_max, 2, 1, 0]))
+    mt = draw(gen.st_mtree(indices=list(range(n)), outliers=True, max_outliers=3))
     return dict(mtree=mt, sib=draw(st.lists(st.integers(0, 7), min_size=1, max_size=4)))
 
 
@@ -41,7 +42,7 @@ def strategy(ctx):
 
 
 def budget(ctx):
-    return dict(max_examples=ctx.pick(480, 6000), shards=16)
+    return dict(max_examples=ctx.pick(1600, 24000), shards=16)
 
 
 def warmup():
